@@ -172,6 +172,14 @@ func init() {
 					emit(fmt.Sprintf("%d %d %d %s %s %s %s", pick(rng, 3, 4), clean, pick(rng, 0, 1, 60, 65535), cid, user, pass, will))
 				}
 			}
+			// long fields: every option present with one field growing across 256 / 65535-byte marks, so that any
+			// packing scheme with a size class or a buffer that is re-allocated in between shows
+			for _, l := range []int{200, 230, 243, 244, 245, 250, 255, 256, 257, 300, 1000, 65535} {
+				emit(fmt.Sprintf("4 1 60 rep:63:%d 75 70617373 772f74,0102,1,1", l))
+				emit(fmt.Sprintf("4 0 60 636c 75 70617373 772f74,rep:77:%d,2,0", l))
+				emit(fmt.Sprintf("4 1 0 636c rep:75:%d 70617373 none", l))
+				emit(fmt.Sprintf("4 1 0 636c rep:75:%d 70617373 rep:74:%d,01,0,1", l, l/2+1))
+			}
 			for i := 0; i < n; i++ {
 				will := "none"
 				if rng.Intn(2) == 0 {
@@ -416,6 +424,10 @@ func init() {
 			emit("636c 75 70 1 1 60 772f74,01,1,1")
 			emit("636c - 70 1 0 0 none") // password without user name (known finding)
 			emit("636c 75 - 1 3 0 none")
+			for _, l := range []int{230, 244, 250, 256, 300, 1000} {
+				emit(fmt.Sprintf("636c 75 70 1 1 60 772f74,rep:77:%d,1,1", l))
+				emit(fmt.Sprintf("636c rep:75:%d 70 1 1 60 none", l))
+			}
 			for i := 0; i < n/2; i++ {
 				will := "none"
 				if rng.Intn(2) == 0 {
